@@ -77,6 +77,7 @@ class Contract(object):
         for src in self.post_hints:
             _check_ghost(src, target)
         self.native_clauses = set(d.get('native_clauses', ()))   # ensures evaluated only natively (bounded tier)
+        self.feas_rlimit = d.get('feas_rlimit')   # per-contract budget of path-feasibility queries
         self.search = d.get('search')      # name of an input generator (gens.GENS) for the native counterexample search
         self.variants = list(d.get('variants', []))   # extra units with some params fixed (e.g. prec=None)
         self.none_as = dict(d.get('none_as', {}))     # at call sites: param given as None means this value
@@ -102,6 +103,8 @@ def _check_ghost(src, target):
         ast.parse(src.strip()[4:].strip(), mode='eval')
         return
     node = ast.parse(src.strip()).body[0]
+    if isinstance(node, ast.Assert) and node.msg is None:
+        return      # proved where it stands (own obligation), then assumed
     if isinstance(node, ast.Assign):
         t = node.targets[0]
         if not (isinstance(t, ast.Name) and t.id.startswith('g_')):
